@@ -65,10 +65,37 @@ class IdSet:
         return "IdSet(%r)" % (self.items,)
 
 
+class SeqV(tuple):
+    """contract-level sequence value: a tuple that concatenates with and equals lists (the symbolic side has one
+    sequence sort); elements compare by identity-or-equality"""
+
+    def __add__(self, o):
+        return SeqV(tuple(self) + tuple(o))
+
+    def __radd__(self, o):
+        return SeqV(tuple(o) + tuple(self))
+
+    def __getitem__(self, i):
+        r = tuple.__getitem__(self, i)
+        return SeqV(r) if isinstance(i, slice) else r
+
+    def __eq__(self, o):
+        try:
+            o = tuple(o)
+        except TypeError:
+            return False
+        return len(self) == len(o) and all(a is b or a == b for a, b in zip(self, o))
+
+    def __ne__(self, o):
+        return not self.__eq__(o)
+
+    __hash__ = tuple.__hash__
+
+
 def seq(x):
     if isinstance(x, dict):
-        return tuple(x.keys())
-    return tuple(x)
+        return SeqV(x.keys())
+    return SeqV(x)
 
 
 def setof(x):
@@ -85,11 +112,11 @@ def addall(s, t):
     for x in t:
         if not _ident_in(x, r):
             r.append(x)
-    return tuple(r)
+    return SeqV(r)
 
 
 def filt(p, s):
-    return tuple(x for x in s if p(x))
+    return SeqV(x for x in s if p(x))
 
 
 def index(s, x):
@@ -104,15 +131,15 @@ def count(s, x):
 
 
 def prefix(s, n):
-    return tuple(s)[:n]
+    return SeqV(tuple(s)[:n])
 
 
 def cat(a, b):
-    return tuple(a) + tuple(b)
+    return SeqV(tuple(a) + tuple(b))
 
 
 def rev(a):
-    return tuple(reversed(tuple(a)))
+    return SeqV(reversed(tuple(a)))
 
 
 def is_tuple(x, n):
@@ -125,12 +152,12 @@ def pair(a, b):
 
 def contents(x):
     if isinstance(x, dict):
-        return tuple(x.keys())
-    return tuple(x)
+        return SeqV(x.keys())
+    return SeqV(x)
 
 
 def keys(d):
-    return tuple(d.keys())
+    return SeqV(d.keys())
 
 
 def dget(d, k):
@@ -321,7 +348,7 @@ def snap_deep(x, depth=2):
 def snap(x):
     """value snapshot of a view (views are tuples / IdSets / scalars; lists and dicts are copied shallowly)"""
     if isinstance(x, list):
-        return tuple(x)
+        return SeqV(x)
     if isinstance(x, dict):
         return dict(x)
     if isinstance(x, (set, frozenset)):
